@@ -141,7 +141,7 @@ func (x *Exec) loadBig(p Value) BigV {
 func (x *Exec) writeBig(z Value, neg *smt.Term, content BufContent, mustAlloc bool) {
 	old := x.loadBig(z)
 	var buf *Object
-	if old.Buf == nil || mustAlloc {
+	if old.Buf == nil || mustAlloc || x.merge != nil {
 		buf = x.newObj(content, "bigbuf")
 	} else if x.Choose(2, "big.Int buffer reuse") == 0 {
 		old.Buf.Val = content
@@ -219,7 +219,7 @@ func (x *Exec) storeDec(dp Value, form, neg, exp, mag *smt.Term) {
 	ob := old.F[fCoeff].(BigV)
 	content := BufContent{V: mag, E: exp}
 	var buf *Object
-	if ob.Buf == nil {
+	if ob.Buf == nil || x.merge != nil {
 		buf = x.newObj(content, "decbuf")
 	} else if x.Choose(2, "apd coefficient buffer reuse") == 0 {
 		ob.Buf.Val = content
@@ -235,6 +235,12 @@ func (x *Exec) requireFinite(d decParts, what string) {
 		if c != 0 {
 			x.Unsupported("%s on a non-finite decimal", what)
 		}
+		return
+	}
+	if x.merge != nil {
+		// a Dec is always finite (its constructors reject NaN and infinities); inside a merged
+		// callee this is a local precondition rather than a path fork
+		x.merge.conds = append(x.merge.conds, x.B.Eq(d.Form, x.B.Int(0)))
 		return
 	}
 	if !x.Branch(x.B.Eq(d.Form, x.B.Int(0))) {
@@ -300,12 +306,22 @@ func (x *Exec) roundTo(ctx apdCtx, mag, e *smt.Term) (*smt.Term, *smt.Term, *smt
 	if !x.Branch(rounded) {
 		return mag, e, B.False, B.False
 	}
+	if x.Cfg.Bound("round_abstract", 0) == 1 {
+		// relational model of the rounded result (handler-level runs): some value within
+		// half a unit of the P-th significant digit, i.e. relative error <= 5*10^-P
+		mag2 := B.Fresh("rounded", smt.SReal)
+		e2 := B.Fresh("roundedexp", smt.SInt)
+		eps := B.RatC(new(big.Rat).SetFrac(big.NewInt(5), pow10(int(P))))
+		x.AssumeLocal(B.And(B.Ge(mag2, B.RealInt(0)), B.Gt(e2, e),
+			B.Le(B.Mul(mag, B.Sub(B.RealInt(1), eps)), mag2), B.Le(mag2, B.Mul(mag, B.Add(B.RealInt(1), eps)))), "rounded result within half an ulp (relational)")
+		return mag2, e2, B.True, B.Not(B.Eq(mag2, mag))
+	}
 	// position m of the leading digit: 10^(m-1) <= mag < 10^m
 	m := B.Fresh("lead", smt.SInt)
 	lo := x.expLo()*2 + P
 	hi := x.expHi()*2 + int64(2*x.digits()) + 2
 	x.setBounds(m, lo, hi, "leading digit position")
-	x.Assume(B.And(B.Le(x.p10(B.Sub(m, B.Int(1))), mag), B.Lt(mag, x.p10(m))), "leading digit")
+	x.AssumeLocal(B.And(B.Le(x.p10(B.Sub(m, B.Int(1))), mag), B.Lt(mag, x.p10(m))), "leading digit")
 	ulpE := B.Sub(m, B.Int(P))
 	q := B.Mul(mag, x.p10(B.Neg(ulpE)))
 	r := B.Floor(B.Add(q, B.RatC(big.NewRat(1, 2))))
@@ -370,7 +386,7 @@ func registerDecimal(p *Program) {
 				lo := x.expLo()*2 - int64(x.digits()) - 2
 				hi := x.expHi()*2 + int64(x.digits()) + 2
 				x.setBounds(m, lo, hi, "quotient leading digit position")
-				x.Assume(B.And(B.Le(x.p10(B.Sub(m, B.Int(1))), q), B.Lt(q, x.p10(m))), "quotient leading digit")
+				x.AssumeLocal(B.And(B.Le(x.p10(B.Sub(m, B.Int(1))), q), B.Lt(q, x.p10(m))), "quotient leading digit")
 				ulpE := B.Sub(m, B.Int(P))
 				scaled := B.Mul(q, x.p10(B.Neg(ulpE)))
 				exact := B.IsInt(scaled)
@@ -380,7 +396,10 @@ func registerDecimal(p *Program) {
 					// the value and an upper bound on the exponent matter to callers
 					e := B.Fresh("qexp", smt.SInt)
 					x.setBounds(e, lo-P, hi, "quotient exponent")
-					x.Assume(B.And(B.Le(e, ideal), B.Ge(e, ulpE), B.IsInt(B.Mul(q, x.p10(B.Neg(e))))), "quotient exponent")
+					// the division stops at the first exact digit: e is the largest exponent <= ideal
+					// for which the coefficient is integral
+					x.AssumeLocal(B.And(B.Le(e, ideal), B.Ge(e, ulpE), B.IsInt(B.Mul(q, x.p10(B.Neg(e)))),
+						B.Or(B.Eq(e, ideal), B.Not(B.IsInt(B.Mul(q, x.p10(B.Neg(B.Add(e, B.Int(1))))))))), "quotient exponent")
 					x.storeDec(dp, B.Int(0), neg, e, q)
 					return x.condResult(ctx, B.False, B.False)
 				}
@@ -467,13 +486,13 @@ func registerDecimal(p *Program) {
 			}
 			e2 := B.Fresh("redexp", smt.SInt)
 			x.setBounds(e2, 1, hi, "reduced exponent")
-			x.Assume(B.And(B.Ge(e2, a.Exp), B.IsInt(B.Mul(a.Mag, B.RatC(big.NewRat(1, 10))))), "reduce: positive exponent")
+			x.AssumeLocal(B.And(B.Ge(e2, a.Exp), B.IsInt(B.Mul(a.Mag, B.RatC(big.NewRat(1, 10))))), "reduce: positive exponent")
 			x.storeDec(c.Args[0], B.Int(0), a.Neg, e2, a.Mag)
 			return TupleV{c.Args[0], IntV{B.Sub(e2, a.Exp)}}
 		}
 		e2 := B.Fresh("redexp", smt.SInt)
 		x.setBounds(e2, lo, -1, "reduced exponent")
-		x.Assume(B.Ge(e2, a.Exp), "reduce: negative exponent")
+		x.AssumeLocal(B.Ge(e2, a.Exp), "reduce: negative exponent")
 		x.storeDec(c.Args[0], B.Int(0), a.Neg, e2, a.Mag)
 		return TupleV{c.Args[0], IntV{B.Sub(e2, a.Exp)}}
 	}
@@ -485,7 +504,7 @@ func registerDecimal(p *Program) {
 	}
 	p.Intr["(*"+apdPkg+".Decimal).SetFinite"] = func(x *Exec, c *CallCtx) Value {
 		t := c.Args[1].(IntV).T
-		e := c.Args[2].(IntV).T
+		e := x.tryConst(c.Args[2].(IntV).T)
 		neg, mag := x.mkBigFromSigned(t)
 		x.storeDec(c.Args[0], x.B.Int(0), neg, e, x.B.Mul(x.B.ToReal(mag), x.p10(e)))
 		return c.Args[0]
@@ -851,8 +870,12 @@ func (x *Exec) apdNewFromString(s StrV) Value {
 // axioms instantiated for this application. Only 'f' is plain notation.
 func (x *Exec) decText(d decParts, verb byte) Value {
 	B := x.B
-	if c, ok := d.Form.ConstInt64(); !ok || c != 0 {
+	if c, ok := d.Form.ConstInt64(); ok && c != 0 {
 		return StrV{Atom: B.Fresh("dectext_special", smt.SStr)}
+	} else if !ok {
+		if !x.Branch(B.Eq(d.Form, B.Int(0))) {
+			return StrV{Atom: B.Fresh("dectext_special", smt.SStr)}
+		}
 	}
 	name := fmt.Sprintf("dec_text_%c", verb)
 	s := B.App(name, smt.SStr, d.Neg, d.Mag, d.Exp)
